@@ -388,6 +388,7 @@ def _spec_after_saves(lines):
     """insert `specdecode` ops after every save so the Spec decoder's view is in the model stream"""
     out = []
     for l in lines:
+        if l.startswith("save "): out.append("lwcheck")     # is the saving object inside the domain of the theorem load_write?
         out.append(l)
         if l.startswith("save "):
             p = l.split(" ")[1]
@@ -408,6 +409,14 @@ def _file_oracle(kinds):
             if rec["op"] == "save" and rec["res"] == "R ok" and d is not None:
                 path = t[1].replace("@W@", res.wd)
                 saved_dump[t[1]] = d
+                lw = mrec.get(rec["n"] - 1)
+                if "C01" in kinds and lw and lw["op"] == "lwcheck":
+                    v = (lw["res"] or "") + " " + " ".join(lw["lines"])
+                    if "hyps=true" in v:
+                        out.append(("_c01_saves_inside_load_write_domain", {}, ""))
+                        if "frames_identical=true" in v: out.append(("_c01_saves_inside_domain_frames_identical", {}, ""))
+                        if "concl=true" not in v: out.append(("theorem_instance", {"op": rec["n"]}, "the model state meets the hypotheses of load_write but not its conclusion: " + v))
+                    elif "hyps=false" in v: out.append(("_c01_saves_outside_load_write_domain", {}, ""))
                 if "C03" in kinds:
                     sf = mrec.get(rec["n"] + 1); ss = mrec.get(rec["n"] + 2)
                     specf = oracles.parse_spec(sf["lines"]) if sf and sf["res"] == "R ok" else None
